@@ -71,6 +71,8 @@ def runLine (l : String) : String :=
       | "obs" => opObs args
       | "filter" => opFilter args
       | "hist" => opHist args
+      | "cont" => opCont args
+      | "hashalg" => opHashAlg args
       | "decv" => opDecv args
       | "enc" => opEnc args
       | "jenc" => opJenc args
